@@ -45,7 +45,7 @@ func c10probe(tag string) []gen.Node {
 	for i, n := range c10Pool {
 		args[i] = str(n)
 	}
-	return []gen.Node{tx("[" + tag + ":"), pr(&gen.ECall{Fn: "probe", Args: args}), tx("]")}
+	return []gen.Node{tx("[" + tag + ":"), pr(&gen.ECall{Fn: "probe", Args: args}), tx("|"), pr(&gen.ECall{Fn: "names"}), tx("]")}
 }
 
 type c10cfg struct {
@@ -140,6 +140,11 @@ func (p *c10) buildCfg(c c10cfg) *Program {
 		site = append(site, tx("{vars:"), pr(attr(nm("vars"), "w")), tx(","), pr(attr(nm("vars"), "x")), tx(","), pr(attr(nm("vars"), "z")), tx("}"))
 	}
 	pre := []gen.Node{&gen.NSet{Name: "x", X: str("hx")}, &gen.NSet{Name: "y", X: str("hy")}}
+	if c.site != 2 && c.site != 3 {
+		// the host has an import alias in scope: it is a variable like the others (passed on, or not under only)
+		ts["hmac"] = tpl("hmac", &gen.NMacro{Name: "hm1", Body: []gen.Node{tx("HM")}})
+		pre = append(pre, &gen.NImport{Tpl: str("hmac"), Alias: "hm"})
+	}
 	var body []gen.Node
 	switch c.site {
 	case 0:
@@ -158,7 +163,7 @@ func (p *c10) buildCfg(c c10cfg) *Program {
 			&gen.NBlock{Name: "site", Body: append(pre, site...)}}
 	case 3:
 		// inside a macro body; only the with/only forms are comparable (macro bodies must not look at outer variables)
-		mbody := append([]gen.Node{tx("M(")}, site[:len(site)-3]...)
+		mbody := append([]gen.Node{tx("M(")}, site[:len(site)-len(c10probe(""))]...)
 		mbody = append(mbody, tx(")"))
 		m := &gen.NMacro{Name: "mac", Params: []string{"x"}, Body: mbody}
 		body = append([]gen.Node{m}, pre...)
